@@ -20,6 +20,8 @@ inductive SOp
   | xstart (j k : Nat)
   /-- delete the primitive (only generated where no correct implementation touches it afterwards) -/
   | destroy
+  /-- `Thread::getCurrentThreadId()` / `Thread::yield()`: no call of the simulated POSIX layer, no model state; they return -/
+  | tid | yield
 deriving DecidableEq, Repr
 
 inductive Kind | normal | spur | eintr | timeout | tick
@@ -77,6 +79,7 @@ def opValid (prim : String) (op : SOp) : Bool :=
   match op with
   | .start _ | .mstart _ | .join _ | .dtor _ | .xstart _ _ => true
   | .destroy => prim == "sig" || prim == "mon"
+  | .tid | .yield => true
   | .lock | .try_ _ | .unlock => prim == "mtx" || prim == "mon"
   | .signal | .trywait => prim == "sem"
   | .wait | .twait _ => prim == "sem" || prim == "sig" || prim == "mon"
@@ -214,6 +217,8 @@ def advance (fuel : Nat) (w : World) (t : Tid) (evs : List String) : Option (Wor
           else some ({ w with thr := th }, evs)
       | some .destroy =>   -- no POSIX scheduling point; object lifetime is not part of the model
         advance fuel { w with pos := w.pos.set! t (k + 1) } t (evs ++ [s!"{k}=v"])
+      | some .tid => advance fuel { w with pos := w.pos.set! t (k + 1) } t (evs ++ [s!"{k}=1"])
+      | some .yield => advance fuel { w with pos := w.pos.set! t (k + 1) } t (evs ++ [s!"{k}=v"])
       | some op => (primCall w.prim t op).map fun p => ({ w with prim := p }, evs)
 
 /-- the pending call of thread t has returned `v` -/
